@@ -16,6 +16,8 @@ import bounded.order1d  # noqa: E402
 import bounded.bp_lower_bound  # noqa: E402
 import bounded.instgen  # noqa: E402
 import bounded.text_roundtrip  # noqa: E402
+import bounded.ode  # noqa: E402
+import contracts.ode  # noqa: E402
 import contracts.bp_instance  # noqa: E402
 import contracts.order1d  # noqa: E402
 import contracts.tsplib  # noqa: E402
@@ -28,6 +30,7 @@ E2 = "moptipyapps.binpacking2d.encodings.ibl_encoding_2"
 TL = "moptipyapps.tsp.tour_length"
 
 PLANS = {}
+ODE = "moptipyapps.dynamic_control.ode"
 
 PLANS["C01"] = Plan(
     "C01", "proof",
@@ -103,8 +106,9 @@ PLANS["C13"] = Plan(
     functions=[E1 + ":__move_down", E1 + ":__move_left", E1 + ":_decode", E2 + ":__move_down", E2 + ":__move_left",
                E2 + ":_decode"] + _OBJ + ["moptipyapps.order1d.distances:swap_distance", ER + ":count_errors", PL + ":game_plan_length", GE + ":map_games",
                "moptipyapps.tsp.tour_length:tour_length", "moptipyapps.tsp.ea1p1_revn:rev_if_not_worse",
-               "moptipyapps.tsp.fea1p1_revn:rev_if_h_not_worse", QO + ":_evaluate"],
-    lemmas=["tri_bound"],
+               "moptipyapps.tsp.fea1p1_revn:rev_if_h_not_worse", QO + ":_evaluate",
+               ODE + ":_is_ok", ODE + ":__j_from_ode_compute", ODE + ":j_from_ode"],
+    lemmas=["tri_bound", "mul_le"],
     extra=[contracts.control.prove_c16],
     explanation="one bounds obligation (-len <= index < len, the exact memory-safety condition of numpy/numba indexing) per "
                 "subscript of every njit kernel, discharged under the pre-conditions that the public spaces and constructors "
@@ -212,6 +216,22 @@ PLANS["C19"] = Plan(
     assumptions=["exploration: finite generated sample, nothing proved"],
 )
 
+PLANS["C10"] = Plan(
+    "C10", "other",
+    functions=[ODE + ":_is_ok", ODE + ":__j_from_ode_compute", ODE + ":j_from_ode"],
+    lemmas=["mul_le"],
+    bounded=[bounded.ode.harness],
+    explanation="proved: _is_ok returns True iff every element lies strictly inside (-1e10, 1e10); __j_from_ode_compute stays "
+                "inside both arrays and fills the destination exactly (closed form of the write index), for all row/column/"
+                "state-dimension combinations; j_from_ode allocates exactly that buffer, hands a completely written buffer to "
+                "fsum and returns 1e200 for runs with at most one row. bounded: post-condition of run_ode (shape, first row, "
+                "strictly increasing times, finiteness, |v| < 1e10, control entries recomputed, failure row) and the "
+                "documented figure of merit on a fixed family of programs incl. diverging / NaN / inf controllers and linear "
+                "systems with closed-form solutions",
+    assumptions=["termination and accuracy of scipy's RK45: not decided (N/A inside C10)", "floats treated as reals in the proofs",
+                 "the outer retry loop of run_ode (scipy objects) is not under contract: bounded only"],
+)
+
 PLANS["C14"] = Plan(
     "C14", "proof",
     functions=[E1 + ":__move_down", E1 + ":__move_left", E1 + ":_decode",
@@ -249,6 +269,11 @@ PLANS["C05"] = Plan(
 
 
 META = {
+    "C10": {"text": "the integer/array logic around the integrator is proved (_is_ok, the figure-of-merit buffer computation and "
+                    "its allocation); the simulation post-condition is monitored on a fixed family of programs including "
+                    "diverging and NaN/inf controllers; termination/accuracy of scipy RK45 is outside any contract here",
+            "note": "level 'other': proof for helper kernels + bounded stand-in for run_ode",
+            "technique": "contract-based deductive verification (closed-form index invariant) + bounded run-time monitor"},
     "C19": {"text": "round-trip contracts monitored on generated objects and tables (bounded exploration); nothing is called proved",
             "note": "string/CSV code is outside the VC generator's subset and outside what z3/cvc5 decide (DESIGN.md C19)",
             "technique": "run-time contract monitor (bounded stand-in)"},
